@@ -1,6 +1,7 @@
 package vsched
 
 import (
+	"strings"
 	"encoding/json"
 	"fmt"
 	"os"
@@ -59,6 +60,9 @@ func (e *Explorer[S]) record(kind string, sc S, o Outcome) {
 }
 
 func (e *Explorer[S]) report(sc S, o Outcome) {
+	if strings.HasPrefix(o.Violation, "harness-") {
+		return // a problem of the harness or its model: the test fails without a recorded violation (driver exit 2)
+	}
 	e.acct().Violation(e.Prefix+"/"+o.Violation, e.Test, map[string]any{
 		"prefix": e.Prefix, "scenario": sc, "choices": o.Res.Choices, "msg": o.Msg, "trace": o.Res.Trace, "terminal": o.Res.Terminal,
 	})
